@@ -603,6 +603,8 @@ class Interp(Arith):
             c = self.to_bool(self.ev(st.test, fr, pc))
             pc = self._after_raises(pc, n0)
             cb = self.pybool(c)
+            if cb is None and self.infeasible(z3.And(pc, c)):
+                cb = False
             if cb is False:
                 exits.append((pc, dict(fr.env)))
                 pc = FALSE
@@ -640,7 +642,7 @@ class Interp(Arith):
                 self.assign(tt, vv, fr, pc)
         elif isinstance(t, ast.Attribute):
             obj = self.ev(t.value, fr, pc)
-            self.setattr(obj, t.attr, v, pc)
+            self.setattr(obj, self.mangle(t.attr, fr), v, pc)
         elif isinstance(t, ast.Subscript):
             obj = self.ev(t.value, fr, pc)
             key = self.ev(t.slice, fr, pc)
